@@ -178,7 +178,10 @@ int reb_binary_diff(char* buf1, size_t size1, char* buf2, size_t size2, char** b
                 pos2 = 64; // For next search
                 are_different = 1.;
                 if (output_option==0){
-                    reb_output_stream_write(bufp, &allocatedsize, sizep, &field1,sizeof(struct reb_binary_field));
+                    // Field is no longer present. Output a field header with size 0 (no data follows).
+                    struct reb_binary_field field_vanished = field1;
+                    field_vanished.size = 0;
+                    reb_output_stream_write(bufp, &allocatedsize, sizep, &field_vanished,sizeof(struct reb_binary_field));
                 }else if (output_option==1 || output_option==3){
                     const struct reb_binary_field_descriptor fd = reb_binary_field_descriptor_for_type(field1.type);
                     char* buf;
